@@ -566,7 +566,10 @@ func genOKVs(r *rand.Rand, max int, c *Case) []OKV {
 			out = append(out, kv)
 			continue
 		}
-		switch r.Intn(12) {
+		switch r.Intn(15) {
+		case 12, 13, 14:
+			kv.V = genOTree(r, 0)
+			flag(c, "attr-"+kv.V.Kind)
 		case 0:
 			kv.V = OVal{Kind: "bool", B: r.Intn(2) == 0}
 		case 1, 2:
@@ -588,6 +591,54 @@ func genOKVs(r *rand.Rand, max int, c *Case) []OKV {
 		out = append(out, kv)
 	}
 	return out
+}
+
+var otlpDoubles = []float64{0, 1, -1, 0.1, 1.5, 100, 1e21, 1e20, 123456789012345680000, 1e-7, 5e-324, 1.7976931348623157e308, math.Inf(1), math.Inf(-1), math.NaN(), 3.141592653589793, -2.5e-10, 1 << 53}
+
+// an any-value of a kind SanitizeValue renders by its own code: double / bytes / array / key-value list (nested to depth 2)
+func genOTree(r *rand.Rand, depth int) OVal {
+	k := r.Intn(8)
+	if depth >= 2 && k >= 4 {
+		k = r.Intn(4)
+	}
+	switch k {
+	case 0, 1:
+		if r.Intn(3) == 0 {
+			return OVal{Kind: "double", F: r.Uint64()}
+		}
+		return OVal{Kind: "double", F: math.Float64bits(otlpDoubles[r.Intn(len(otlpDoubles))])}
+	case 2, 3:
+		b := make([]byte, r.Intn(9))
+		for i := range b {
+			b[i] = byte(r.Intn(256))
+		}
+		return OVal{Kind: "bytes", S: Str(b)}
+	case 4, 5:
+		v := OVal{Kind: "arr", Items: []OVal{}}
+		for n := r.Intn(4); n > 0; n-- {
+			v.Items = append(v.Items, genOLeaf(r, depth+1))
+		}
+		return v
+	}
+	v := OVal{Kind: "kv", KVs: []OKV{}}
+	for n := r.Intn(4); n > 0; n-- {
+		v.KVs = append(v.KVs, OKV{K: Str(pick(r, []string{"a", "b.c", "b_c", "b-c", "9", "", "ü", "<k>"})), V: genOLeaf(r, depth+1)})
+	}
+	return v
+}
+
+func genOLeaf(r *rand.Rand, depth int) OVal {
+	switch r.Intn(6) {
+	case 0:
+		return OVal{Kind: "str", S: Str(pick(r, []string{"", "x", "a\"b", "<tag>&", "ünï\u2028", "line\nbreak", "\x7f\x01"}))}
+	case 1:
+		return OVal{Kind: "int", I: r.Int63n(2000) - 1000}
+	case 2:
+		return OVal{Kind: "bool", B: r.Intn(2) == 0}
+	case 3:
+		return OVal{Kind: "none"}
+	}
+	return genOTree(r, depth)
 }
 
 func genOtlp(r *rand.Rand, c *Case) {
@@ -614,6 +665,14 @@ func genOtlp(r *rand.Rand, c *Case) {
 				}
 				if r.Intn(10) != 0 {
 					rec.Body = sp(genLine(r))
+				}
+				if r.Intn(8) == 0 {
+					rec.Body = nil
+					v := genOLeaf(r, 0)
+					if v.Kind != "str" {
+						rec.BodyV = &v
+						flag(c, "body-"+v.Kind)
+					}
 				}
 				sl.Records = append(sl.Records, rec)
 			}
@@ -815,6 +874,12 @@ func gen(r *rand.Rand, i int) Case {
 		default:
 			c.Proto = "otlp"
 			genOtlp(r, &c)
+		}
+		// one body in seven is read through a reader that fails part-way (Content-Encoding gzip / snappy stream truncated or
+		// corrupted, plain body whose connection breaks)
+		if !c.Damage && r.Intn(7) == 0 {
+			c.Cut = genCut(r)
+			flag(&c, "cut-"+c.Cut.Enc+"-"+c.Cut.Kind)
 		}
 	}
 	return c
